@@ -168,6 +168,24 @@ func genC01(c *Ctx) {
 			c.checkBoolean(t, expr, A)
 		}
 	}
+	// (d) both terms of a confusable pair in one expression, against lists that tell them apart
+	for _, t := range confusableTrees() {
+		cand := confusableAllowed(t)
+		relevant := cand
+		if len(relevant) > 5 {
+			relevant = relevant[:5]
+		}
+		expr := t.render(0, c.rng)
+		c.count("confusable_pair_trees")
+		for _, A := range subsets(relevant) {
+			c.checkBoolean(t, expr, A)
+		}
+		for _, a := range cand {
+			c.checkBoolean(t, expr, []string{a})
+			c.checkBoolean(t, expr, []string{a, "Zlib"})
+			c.checkBoolean(t, expr, []string{"0BSD", a})
+		}
+	}
 	// witnesses of DESIGN section 1 (corpus)
 	for _, w := range corpusSat {
 		c.checkBoolean(w.t, w.t.render(0, c.rng), w.A)
@@ -772,6 +790,9 @@ func genC06(c *Ctx) {
 	}
 	for _, w := range corpusSat {
 		checkTree(w.t, w.t.render(0, c.rng))
+	}
+	for _, t := range confusableTrees() {
+		checkTree(t, t.render(c.rng.Intn(2), c.rng))
 	}
 	deep := 100
 	if c.thorough() {
